@@ -326,20 +326,30 @@ def decide_path(ob, path, claims, assume_f, replay_fn, dump=None):
         if r2 == "sat":
             candidates.insert(0, ("exact", s2.model()))
         r = r2 if r2 != "unknown" else r
-    # robust counterexample: prefer a model that violates an Eq claim by a wide margin
-    if candidates and candidates[0][0] == "exact" and any(isinstance(c, Eq) for c in claims):
-        for thr in (1e-2, 1e-5):
-            core.CTX.monos = set(path.monos)
-            negw = _claims_neg(claims, thr)
-            if negw.k == "const":
-                continue
-            s3 = _solver(min(ob.solver_timeout_ms, 20000))
-            s3.add(base)
-            if exact_needed:
-                s3.add(_exact_constraints(path, set(core.CTX.monos)))
-            s3.add(negw.z3())
-            if _check(s3, pv) == "sat":
-                candidates.insert(0, ("exact-wide", s3.model()))
+    # robust counterexample: prefer a model inside the assumptions by a margin (survives float replay) that
+    # violates an Eq claim by a wide margin
+    if candidates:
+        has_eq = any(isinstance(c, Eq) for c in claims)
+        found = False
+        for margin in (1e-3, 1e-6, 1e-9):
+            for thr in ((1e-2, 1e-5, None) if has_eq else (None,)):
+                core.CTX.monos = set(path.monos)
+                negw = _claims_neg(claims, thr)
+                if negw.k == "const" and not negw.a:
+                    continue
+                s3 = _solver(min(ob.solver_timeout_ms, 20000))
+                s3.add(core.bounds_constraints(margin))
+                s3.add([a.tighten(margin).z3() for a in assume_f])
+                s3.add([c.z3() for c in path.pc])
+                s3.add([d[0] for d in path.defs if d[0] is not None])
+                if exact_needed:
+                    s3.add(_exact_constraints(path, set(core.CTX.monos)))
+                s3.add(negw.z3())
+                if _check(s3, pv) == "sat":
+                    candidates.insert(0, (f"robust(margin={margin},thr={thr})", s3.model()))
+                    found = True
+                    break
+            if found:
                 break
     for kind, model in candidates:
         try:
@@ -508,6 +518,9 @@ def run_obligation(ob, seed=0, tier="quick", collect_functions=True):
                 s.add(_base_constraints(ob, p, assume_f))
                 r = _check(s, pv)
                 et = type(p.value).__name__
+                if r != "unsat" and (p.monos or any(d[1] is not None for d in p.defs)):
+                    s.add(_exact_constraints(p, set(p.monos)))
+                    r = _check(s, pv)
                 if r == "unsat":
                     pv.status = "holds"
                     pv.detail = "exception path infeasible"
